@@ -684,9 +684,12 @@ func writeEvidence(id, tier string, seed int, cfg CheckCfg, evs []*harnessEviden
 		"status": status, "outside_claim": cfg.Outside,
 		"explanation": "states = symbolic paths completed (each decided by SMT feasibility queries over all input values within the bounds); transitions = branch decisions; obligations = vAssert sites reached on feasible paths, discharged = negation unsat.",
 	}
+	assumptions := append([]string{}, cfg.Assumptions...)
+	assumptions = append(assumptions, "go/ssa translation and the engine's interpretation of it (validated on every run by native re-execution of sampled paths)",
+		"SMT solver verdicts (z3 4.8.12; z3-new/cvc5 only as fallback on unknown)")
 	doc := map[string]interface{}{
 		"property_id": id, "tier": tier, "seed": seed, "level": level, "coverage": cov,
-		"assumptions": cfg.Assumptions, "wall_s": wall.Seconds(), "violations": violations,
+		"assumptions": assumptions, "wall_s": wall.Seconds(), "violations": violations,
 	}
 	b, _ := json.MarshalIndent(doc, "", " ")
 	os.MkdirAll(filepath.Join(verifRoot, "evidence"), 0o755)
